@@ -4,17 +4,24 @@ import gen_names as g
 
 IMPL_MODULE = "names_impl"
 RULE = ("every string up to length L over a 12-symbol class-representative alphabet (lower, upper, digit, the three separators, newline, space, "
-        "non-ASCII letter, the case-fold confusables U+017F U+212A U+0130) + segment/separator-run structured names (one- and two-character "
+        "non-ASCII letter, the case-fold confusables U+017F U+212A U+0130) + strings of non-ASCII cased letters (upper/lower/title case, "
+        "one-to-many and ASCII images, astral) with U+03A3 in final / medial / initial position and case-ignorable neighbours + a sweep of "
+        "str.lower() over every code point the interpreter changes, its image, its neighbours and the class boundaries of the Final_Sigma rule "
+        "+ segment/separator-run structured names (one- and two-character "
         "first segments, mixed runs, trailing newline/separator damage, confusables) + related pairs (respelled / near-miss names) for the laws; "
         "non-trivial = accepted by validate or is_normalized_name, or changed by canonicalize_name; distinct by input text")
 ASSUMPTIONS = [
-    "str.lower() beyond ASCII: the model carries U+0130 -> 'i'+U+0307 and U+212A -> 'k' and treats every other non-ASCII code point as fixed; "
-    "generated non-ASCII code points are drawn from a pool with that behaviour (checked for every code point by the law.n.lowertable case: no other "
-    "non-ASCII code point lower-cases to text containing an ASCII character or a separator); non-ASCII upper-case letters and the "
-    "final-sigma rule are outside the generated and the modelled domain",
+    "str.lower() beyond ASCII: the model (NamesX) uses the table coq/Gen/LowerTable.v generated from the running interpreter (every code point "
+    "whose lower() differs from itself; the cased / case-ignorable classes of the Final_Sigma rule obtained by probing lower() around U+03A3); "
+    "law.n.lowertable re-validates the generated file and the three table facts the theorems use against the interpreter for every code point; "
+    "str.lower() being per code point apart from U+03A3 is CPython's do_lower, exercised by the n.lower / cased streams",
+    "lone surrogates are not generated (text transport)",
 ]
-TRUSTED_EXTRA = ["re engine on the three name patterns: tied to the hand-written recognisers by the bounded-exhaustive stream and by per-code-point sweeps "
-                 "over all 0x110000 code points in four contexts (law.n.allcp)"]
+TRUSTED_EXTRA = ["re engine on the two .match patterns: Names/NamesRegex.v gives a backtracking matcher for the fragment in use and proves that the hand-written "
+                 "recognisers are what it computes on the transcribed patterns (C13_validate_regex_is_recogniser, C13_normalized_regex_is_recogniser); trusted are "
+                 "the transcription of the two pattern strings (flags included) and CPython's re implementing that semantics - both exercised by the "
+                 "bounded-exhaustive stream and by per-code-point sweeps over all 0x110000 code points in seven or more contexts (law.n.allcp)",
+                 "re.sub on [-_.]+ (leftmost, greedy, non-overlapping) is modelled by Names.sub_runs directly"]
 
 
 def streams(rng, tier):
@@ -43,7 +50,30 @@ def streams(rng, tier):
     for s in ["", "a", "A", "-", "a-", "-a", "a--b", "a-b", "a_b", "a.b", "a-_.b", "foo\n", "foo\n\n", "a\n--b", "\n--", "ab--c", "a-b--c", "ſ", "K",
               "İ", "aİb", "Foo.Bar_baz", "A" * 300 + "-" * 40 + "b", "x" + "-_." * 100 + "y", "0", "00", "a b", "a\x00b", "a\rb", "a\x0bb"]:
         out.append(Case("fixed", "n.name", [s])); out.append(Case("fixed-law", "law.n.pair", [s, s.lower()], kind="law"))
-    for ctx in ["{}", "a{}", "{}a", "a{}a"]:
+    # ---- non-ASCII cased letters and U+03A3 through the exact model (NamesX.canon_full), and the same strings through the laws
+    for _ in range(3000 if q else 60000):
+        s = g.rand_cased_name(rng)
+        out.append(Case("cased", "n.name", [s]))
+        r = rng.random()
+        if r < 0.3: out.append(Case("cased-lower", "n.lower", [s]))
+        elif r < 0.6: out.append(Case("law-pair-cased", "law.n.pair", [s, g.respell_cased(rng, s)], kind="law"))
+        elif r < 0.75: out.append(Case("law-pair-cased", "law.n.pair", [s, g.near_name(rng, s)], kind="law"))
+        elif r < 0.85: out.append(Case("cased", "n.name", [g.mutate(rng, s, chars=g.MUT + g.CASED + g.IGNORABLE)]))
+    for s in ["aΣ", "aΣ.b", "Σa", "aΣb", "Σ", "ΣΣ", "aΣΣ", "a'Σ", "aΣ'", "aΣ'b", "a.Σ", "a-Σ", "1Σ", "aΣ1", "ʰΣ", "aʰΣ", "aΣʰ", "aΣʰb", "ΌΣΟΣ", "É", "Éé", "ǅ", "ẞß", "İ", "aİΣ",
+              "𐐀𐐨", "Ω_.Ω", "aΣ-_.Σa", "a\u0301Σ\u0301", "\u0345Σ", "a\u0345Σ"]:
+        out.append(Case("fixed-cased", "n.name", [s])); out.append(Case("fixed-cased", "n.lower", [s]))
+        out.append(Case("fixed-law-cased", "law.n.pair", [s, s.lower()], kind="law")); out.append(Case("fixed-law-cased", "law.n.pair", [s, s.swapcase()], kind="law"))
+    pts = g.lower_sweep_points(rng, 2000 if q else 60000)
+    for i in range(0, len(pts), 64):            # 64 code points per case; U+03A3 gets its own contexts above
+        chunk = "".join(chr(p) for p in pts[i:i + 64] if p != 0x3A3)
+        out.append(Case("lower-sweep", "n.lower", [chunk])); out.append(Case("lower-sweep", "n.name", [chunk]))
+    for p in pts:                                # Final_Sigma classes: each swept code point after and before a sigma
+        if rng.random() < (0.25 if q else 1.0):
+            out.append(Case("sigma-sweep", "n.lower", ["aΣ" + chr(p)])); out.append(Case("sigma-sweep", "n.lower", ["aΣ" + chr(p) + "a"]))
+            out.append(Case("sigma-sweep", "n.lower", [chr(p) + "Σ"]))
+    big = "Ab" * 30000 + "-_." * 10000 + "É" * 10000 + "Σ"
+    out.append(Case("long", "n.name", [big])); out.append(Case("long", "law.n.pair", [big, big.lower()], kind="law"))
+    for ctx in ["{}", "a{}", "{}a", "a{}a", "a-{}", "{}.a", "A{}"] + ([] if q else ["a{}-b", "É{}", "{}Σ", "a_{}.", "{0}{0}"]):
         out.append(Case("law-allcp", "law.n.allcp", [ctx], kind="law"))
     out.append(Case("law-lowertable", "law.n.lowertable", [], kind="law"))
     return out
